@@ -187,6 +187,9 @@ package rapidcore
 //@ func (SandboxContext).Init
 //@   ensures [api-address] has(init.EnvironmentVariables.platform, "AWS_LAMBDA_RUNTIME_API") && init.EnvironmentVariables.platform["AWS_LAMBDA_RUNTIME_API"] == s.runtimeAPIAddress
 //@   ensures [handler-override] len(s.handler) > 0 ==> has(init.EnvironmentVariables.runtime, "_HANDLER") && init.EnvironmentVariables.runtime["_HANDLER"] == s.handler
+// C13: the handler an extension is told in its register reply is the handler of the init message (function metadata); when the
+// sandbox was configured with a handler (the emulator's command line), that is the one the runtime is started with
+//@   ensures [C13: the-handler-the-runtime-is-started-with-is-the-handler-of-the-init-message] len(s.handler) > 0 ==> init.Handler == s.handler
 
 // C08: clearing the server for the next generation forgets the reservation and the cached init error response
 //@ func (*Server).Clear
